@@ -22,8 +22,12 @@ TRUSTED = [
     "harness/vsim.py virtual-time loop in place of asyncio's selector loop and sockets (timers fire at their due millisecond)",
     "the lookup's view of the instance is the block input (cache key objects, question history): how the record manager, "
     "cache and history get there is C05/C06/C13",
-    "not modelled: IPv6 scope ids, zc not yet started (async_wait_for_start is outside the timeout), the sync wrapper "
-    "ServiceInfo.request (run_coro_with_timeout), packet splitting of the query (never reached with < 30 known answers)",
+    "IPv6 scope ids: scenarios received on an IPv6 socket use one scope id for all link-local AAAA records (an address object is then determined "
+    "by its packed bytes, which is what the model keeps); two scopes of one link-local address in one lookup are not generated",
+    "not modelled: zc not yet started (async_wait_for_start is outside the timeout), the sync wrapper "
+    "ServiceInfo.request (run_coro_with_timeout)",
+    "a query whose known answers do not fit one packet goes out as a TC train: the block's datagrams are read as one query (questions and "
+    "known answers merged); the TC bits, sizes and per-packet contents are C13's clause / C14's model",
 ]
 ASSUMPTIONS = [
     "event-loop axioms (DESIGN 4.7): a sleeping task resumes no later than its timer's due time; random draws lie in the requested interval "
@@ -59,7 +63,8 @@ def mk_record(spec, created=None):
     if kind == "a":
         return d.DNSAddress(spec["name"], k._TYPE_A, cls, spec["ttl"], bytes.fromhex(spec["addr"]), **kw)
     if kind == "aaaa":
-        return d.DNSAddress(spec["name"], k._TYPE_AAAA, cls, spec["ttl"], bytes.fromhex(spec["addr"]), **kw)
+        # `scope`: the record was received on an IPv6 socket (the 4-tuple source address carries the interface's scope id)
+        return d.DNSAddress(spec["name"], k._TYPE_AAAA, cls, spec["ttl"], bytes.fromhex(spec["addr"]), scope_id=spec.get("scope"), **kw)
     if kind == "ptr":
         return d.DNSPointer(spec["name"], k._TYPE_PTR, cls, spec["ttl"], spec["alias"], **kw)
     raise ValueError(kind)
@@ -170,7 +175,11 @@ def run_scenario(sc):
                 for spec in ev.get("known", []):
                     out.add_answer_at_time(mk_record(spec), 0)
             for p in out.packets():
-                host.inject(p, "10.0.0.9", 5353)
+                if sc.get("v6scope"):
+                    # received on an IPv6 socket: (address, port, flow, scope id); link-local AAAA records then carry the scope id
+                    host.deliver(bytes(p), ("fe80::9", 5353, 0, sc["v6scope"]))
+                else:
+                    host.inject(p, "10.0.0.9", 5353)
 
         rsp = sc.get("responder")
         if rsp:
@@ -213,7 +222,10 @@ def run_scenario(sc):
                     for r in recs:
                         out.add_answer_at_time(r, 0)
                     for pkt in out.packets():
-                        sim.loop.call_later(rsp["delay"] / 1000.0, host.inject, pkt, "10.0.0.7", 5353)
+                        if sc.get("v6scope"):
+                            sim.loop.call_later(rsp["delay"] / 1000.0, host.deliver, bytes(pkt), ("fe80::7", 5353, 0, sc["v6scope"]))
+                        else:
+                            sim.loop.call_later(rsp["delay"] / 1000.0, host.inject, pkt, "10.0.0.7", 5353)
 
             sim.net.on_send = on_send
         pre_ev = sc.get("preevents", [])
@@ -321,14 +333,26 @@ def run_scenario(sc):
 # model line / implementation observation strings
 
 
+class SentQuery:
+    """the datagrams one block handed to `async_send`, read as ONE query: a query whose known answers do not fit one packet
+    is split by `DNSOutgoing.packets()` -- questions in the first datagram, known answers continued in the following ones, TC set
+    on all but the last (C13's clause; C14's packetisation).  That is legal behaviour, not a second query."""
+
+    def __init__(self, msgs):
+        self.msgs = msgs
+        self.questions = [q for m in msgs for q in m.questions]
+        self.tcs = [m.truncated for m in msgs]
+
+    def answers(self):
+        return [r for m in self.msgs for r in m.answers()]
+
+
 def parse_sent(datagrams, known=None):
     from zeroconf import DNSIncoming
 
     if not datagrams:
         return "-", None
-    if len(datagrams) > 1:
-        return "multi:%d" % len(datagrams), None
-    m = DNSIncoming(bytes.fromhex(datagrams[0]))
+    m = SentQuery([DNSIncoming(bytes.fromhex(d)) for d in datagrams])
     qs = sorted(q_ident(q) for q in m.questions)
     ans = sorted(ident_line(r) for r in m.answers()) if known is None else known
     return (";".join(qs) or "-") + "#" + (";".join(ans) or "-"), m
@@ -406,25 +430,46 @@ def oracle(sc, obs):
     has_addr = bool(fin["v4"] or fin["v6"])
     if obs["result"] != has_addr:
         out.append(("C18:iff", "returned %s while %s address is known" % (obs["result"], "an" if has_addr else "no")))
-    # --- freshness / provenance: every field equals that of a record that was unexpired when the lookup read it
-    reads = []  # (record, time)
-    for b in blocks:
-        for r in b["cache"] + b["recs"]:
-            reads.append((r, b["now"]))
-    untouched = (fin["server"], fin["port"], fin["priority"], fin["weight"]) == (sc.get("server") or None, None, 0, 0)   # as constructed
-    if not untouched:
-        ok = any(r["kind"] == "DNSService" and r["name"].lower() == name.lower() and not expired(r, t)
-                 and r["srv"] == (fin["server"], fin["port"], fin["priority"], fin["weight"]) for r, t in reads)
-        if not ok:
-            out.append(("C18:stale-srv", "host/port/priority/weight %r were not taken from an unexpired SRV of the instance" % ((fin["server"], fin["port"], fin["priority"], fin["weight"]),)))
+    # --- freshness / provenance: every field was taken from a record that was unexpired WHEN IT WAS READ.  The read is pinned to the
+    #     block that gave the field its final value (Lean: `C18_block_fresh` / `AssignedIn`): the last block across which the field
+    #     changed must itself have read -- in its cache snapshot or its record list -- an unexpired record carrying that value.  (A record
+    #     that sat unexpired in the cache of an EARLIER block does not justify a field assigned later from its expired self.)
+    init = {"server": sc.get("server") or None, "server_key": (sc.get("server") or "").lower() or None, "port": None, "priority": 0, "weight": 0,
+            "text": "", "v4": [], "v6": []}
+
+    def assigned_in(changed):
+        """index of the last block across which `changed(before, after)` holds, or None"""
+        k, prev = None, init
+        for idx, b in enumerate(blocks):
+            if changed(prev, b["fields"]):
+                k = idx
+            prev = b["fields"]
+        return k
+
+    def reads_of(k):
+        return blocks[k]["cache"] + blocks[k]["recs"], blocks[k]["now"]
+
+    srv_of = lambda f: (f["server"], f["port"], f["priority"], f["weight"])
+    k = assigned_in(lambda a, b: srv_of(a) != srv_of(b))
+    if k is not None and srv_of(fin) != srv_of(init):
+        reads, t = reads_of(k)
+        if not any(r["kind"] == "DNSService" and r["name"].lower() == name.lower() and not expired(r, t) and r["srv"] == srv_of(fin) for r in reads):
+            out.append(("C18:stale-srv", "host/port/priority/weight %r were assigned in block %d (+%d ms), which read no unexpired SRV of the instance carrying them"
+                        % (srv_of(fin), k, t - obs["t0"])))
     if fin["text"] != "":
-        ok = any(r["kind"] == "DNSText" and r["name"].lower() == name.lower() and not expired(r, t) and r["text"] == fin["text"] for r, t in reads)
-        if not ok:
-            out.append(("C18:stale-txt", "TXT %s was not taken from an unexpired TXT record of the instance" % fin["text"]))
+        k = assigned_in(lambda a, b: a["text"] != b["text"])
+        reads, t = reads_of(k)
+        if not any(r["kind"] == "DNSText" and r["name"].lower() == name.lower() and not expired(r, t) and r["text"] == fin["text"] for r in reads):
+            out.append(("C18:stale-txt", "TXT %s was assigned in block %d (+%d ms), which read no unexpired TXT record of the instance carrying it" % (fin["text"], k, t - obs["t0"])))
     for a in fin["v4"] + fin["v6"]:
-        ok = fin["server_key"] is not None and any(r["kind"] == "DNSAddress" and r["name"].lower() == fin["server_key"] and not expired(r, t) and r["addr"] == a for r, t in reads)
+        # the address entered the object, or stayed while the host changed, in block k
+        k = assigned_in(lambda x, y: a in y["v4"] + y["v6"] and (a not in x["v4"] + x["v6"] or x["server_key"] != y["server_key"]))
+        ok = False
+        if k is not None and fin["server_key"] is not None:
+            reads, t = reads_of(k)
+            ok = any(r["kind"] == "DNSAddress" and r["name"].lower() == fin["server_key"] and not expired(r, t) and r["addr"] == a for r in reads)
         if not ok:
-            out.append(("C18:stale-address", "address %s was not taken from an unexpired address record of host %s" % (a, fin["server_key"])))
+            out.append(("C18:stale-address", "address %s entered the object in block %s, which read no unexpired address record of host %s carrying it" % (a, k, fin["server_key"])))
     s0 = blocks[0]
     if s0["ret"] is True and fin["server_key"] is not None:
         # answered from the cache: all unexpired addresses of the host
@@ -446,8 +491,6 @@ def oracle(sc, obs):
             want = None  # the property leaves later queries open when a type is forced
         line, m = parse_sent(b["sent"])
         if m is None:
-            if line.startswith("multi"):
-                out.append(("C18:query-split", "the query was split into %s datagrams" % line))
             continue
         bits = {q.unique for q in m.questions}
         if want is not None and bits != {want == 1}:
@@ -461,8 +504,6 @@ def oracle(sc, obs):
     #     within the last 999 ms: duplicate-question suppression, C13)
     for i, b in enumerate(gens):
         line, m = parse_sent(b["sent"])
-        if line.startswith("multi"):
-            continue
         asked_q = {(q.name.lower(), q.type) for q in m.questions if q.class_ == 1} if m is not None else set()
         f = b["fields"]
         for (qname, qtype) in ((f["name"], 33), (f["name"], 16), (f["server"] or f["name"], 1), (f["server"] or f["name"], 28)):
@@ -499,8 +540,8 @@ def oracle(sc, obs):
                         lost = (r["addr"], b["now"] - obs["t0"])
     if lost is not None:
         out.append(("C18:address-before-srv-lost", "address %s of the service's host was delivered to the lookup %d ms after its start, unexpired, "
-                    "yet it returned False at %d ms without any address (the address record preceded the SRV record in its datagram: it was "
-                    "dropped while the host was unknown, and the SRV branch re-read a cache that did not hold it yet)"
+                    "yet it returned False at %d ms without any address (D22's mechanism -- the address record preceded the SRV record in its datagram, was "
+                    "dropped while the host was unknown, and the SRV branch re-read a cache that did not hold it yet -- or the record was refused for another reason)"
                     % (lost[0], lost[1], obs["t_ret"] - obs["t0"])))
     # --- with a responder that answers every question, the questions the lookup must ask lead to success
     elif sc.get("liveness") and obs["result"] is not True:
@@ -594,6 +635,14 @@ def gen_scenario(rng, idx):
             sc["pre"].append({"k": "srv", "name": "other._x._tcp.local.", "ttl": 120, "server": host, "port": 9, "age": 5})
         if rng.random() < 0.1:
             sc["pre"].append({"k": "a", "name": host, "ttl": 120, "addr": V4[0], "cls": 3, "age": 5})   # wrong class
+        if rng.random() < 0.03:
+            # more known answers than one packet holds (about 88 A records): the query goes out as a TC train.  The records are named
+            # like the instance (asked while no SRV is known: `server or name`) or like the host
+            owner = rng.choice(NAME_SPELLINGS + [host])
+            many_ttl = rng.choice([120, 4500])
+            for i in range(rng.choice([60, 90, 90, 150, 200])):
+                sc["pre"].append({"k": "a", "name": owner, "ttl": many_ttl, "addr": "0a01%02x%02x" % (i // 250, i % 250), "unique": True,
+                                  "age": rng.choice([1, 1000, many_ttl * 500 - 1, many_ttl * 500]) if rng.random() < 0.9 else age_for(many_ttl)})
         rng.shuffle(sc["pre"])
     # ---- arrivals
     cands = sorted(set(t for q in qtimes for t in (q - 1, q, q + 1) if t >= 0) | {timeout - 1, timeout, timeout + 1, 1, 199, 200})
@@ -650,7 +699,19 @@ def gen_scenario(rng, idx):
             sc.setdefault("preevents", []).append({"before": rng.choice([9500, 8000, 6000, 4000, 2500, 1500, 999, 500, 1]), "kind": "resp", "recs": recs})
     if rng.random() < 0.15:
         sc["prehist"].append({"name": rng.choice([NAME, host]), "type": rng.choice([33, 16, 1, 28]), "age": rng.choice([0, 1, 500, 998, 999, 1000]), "known": []})
+    v6_scope(rng, sc)
     return sc
+
+
+def v6_scope(rng, sc):
+    """15 % of the scenarios are received on an IPv6 socket: datagrams come from a 4-tuple source with a scope id, and every link-local
+    AAAA record -- cached before (it was received the same way) or arriving -- carries that one scope id, so that an address object
+    is still determined by its packed bytes (the model's view)"""
+    if rng.random() < 0.15:
+        sc["v6scope"] = rng.choice([1, 3, 12])
+        for spec in sc["pre"]:
+            if spec["k"] == "aaaa":
+                spec["scope"] = sc["v6scope"]
 
 
 def gen_responder_scenario(rng, idx):
@@ -702,7 +763,96 @@ def gen_responder_scenario(rng, idx):
             ttl = rng.choice([120, 10])
             sc["pre"].append({"k": "aaaa", "name": spell(host), "ttl": ttl, "addr": a, "unique": True, "age": age_state(ttl, ["fresh", "stale", "expired", "expired"])})
     rng.shuffle(sc["pre"])
+    v6_scope(rng, sc)
     return sc
+
+
+def gen_history_scenario(rng, idx):
+    """The cache is built by the real receive path alone (response datagrams through `datagram_received`), with histories in which the
+    SAME record is received more than once: re-announced with another TTL, flushed and re-announced, or repeated byte-identically in a
+    steady stream.  `truth` is what RFC 6762 section 10 says the cache holds when the lookup starts -- a record's life starts at its
+    last sighting, with that sighting's TTL -- written down by the generator, independent of what the cache claims."""
+    host = rng.choice(HOSTS)
+    sc = {"timeout": rng.choice([300, 500, 1000]), "forced": 0, "draws": [rng.choice([20, 120]) for _ in range(12)], "simseed": rng.randint(0, 10**6),
+          "maxdelay": 0, "warmup": 0, "pre": [], "events": [], "prehist": [], "preevents": [], "via": None}
+    fam = rng.choice(["ttl-change", "ttl-change", "flush-reannounce", "stream", "stream"])
+    sc["family"] = fam
+    srv = {"k": "srv", "name": NAME, "server": host, "port": 80, "prio": 0, "weight": 0, "unique": True}
+    txt = {"k": "txt", "name": NAME, "text": "03613d31", "unique": True}
+    a1 = {"k": "a", "name": host, "addr": V4[0], "unique": True}
+    a2 = {"k": "a", "name": host, "addr": V4[1], "unique": True}
+
+    def recs(specs, ttl):
+        return [dict(x, ttl=ttl) for x in specs]
+
+    if fam == "ttl-change":
+        # announced with TTL t1, re-announced (equal records) with TTL t2: the second announcement decides
+        t1, t2 = rng.choice([(120, 2), (120, 2), (4500, 3), (2, 120), (3, 4500), (120, 10)])
+        gap = rng.choice([1000, 1500]) if t1 <= 3 else rng.choice([1500, 4000, 30000])    # the second arrives while the first is still cached
+        b2 = rng.choice([500, 1000 * t2 - 1, 1000 * t2, 1000 * t2 + 1, 5000, 1500])
+        sc["preevents"] = [{"before": b2 + gap, "kind": "resp", "recs": recs([srv, txt, a1], t1)}, {"before": b2, "kind": "resp", "recs": recs([srv, txt, a1], t2)}]
+        sc["truth"] = [dict(x, before=b2) for x in recs([srv, txt, a1], t2)]
+    elif fam == "flush-reannounce":
+        # A1 cached for more than a second; A2 announced alone with the flush bit (A1 is set to expire in one second); A1 announced again
+        # less than a second after A2 (so A2 is not flushed in turn): both addresses live on with their own TTLs
+        b3 = rng.choice([2000, 3000, 5000])
+        d23 = rng.choice([300, 500, 900])
+        b1 = b3 + d23 + rng.choice([1500, 5000])
+        sc["preevents"] = [{"before": b1, "kind": "resp", "recs": recs([srv, txt, a1], 120)},
+                           {"before": b3 + d23, "kind": "resp", "recs": recs([a2], 120)},
+                           {"before": b3, "kind": "resp", "recs": recs([a1], 120)}]
+        sc["truth"] = [dict(x, before=b1) for x in recs([srv, txt], 120)] + [dict(a2, ttl=120, before=b3 + d23), dict(a1, ttl=120, before=b3)]
+    else:
+        # a responder repeats one and the same response (byte-identical) every `d` ms, d < 1 s, for longer than the records' TTL: the
+        # duplicate-packet guard may drop a copy that follows a PROCESSED copy by less than a second, so at least every second copy
+        # is processed and the records never run out
+        ttl = rng.choice([2, 3])
+        d = rng.choice([300, 500, 800, 900])
+        tail = rng.choice([1, d // 2, d - 1])
+        n = (ttl * 1000 + 3000) // d + 2
+        sc["preevents"] = [{"before": tail + j * d, "kind": "resp", "recs": recs([srv, txt, a1], ttl)} for j in range(n)]
+        # worst case: the last copy was dropped as a duplicate, the one before it was processed
+        sc["truth"] = [dict(x, before=tail + d) for x in recs([srv, txt, a1], ttl)]
+    return sc
+
+
+def truth_cache(sc, t0):
+    """the generator's statement of what the cache holds at the start of the lookup, in the format of `Watch.snap`"""
+    out = []
+    for spec in sc["truth"]:
+        r = mk_record(spec, created=t0 - spec["before"])
+        out.append({"name": r.name, "type": r.type, "cls": r.class_, "ttl": int(r.ttl), "created": int(r.created), "kind": type(r).__name__,
+                    "addr": getattr(r, "address", b"").hex() if type(r).__name__ == "DNSAddress" else None,
+                    "srv": (r.server, r.port, r.priority, r.weight) if type(r).__name__ == "DNSService" else None,
+                    "text": r.text.hex() if type(r).__name__ == "DNSText" else None})
+    return out
+
+
+def oracle_by_datagrams(sc, obs):
+    """the cache clauses of the property measured against the datagrams the instance received instead of against the cache's own
+    bookkeeping: 'unexpired' = unexpired by the last sighting of the record"""
+    out = []
+    name = sc.get("name", NAME)
+    blocks, fin = obs["blocks"], obs["final"]
+    s0 = blocks[0]
+    tc = truth_cache(sc, obs["t0"])
+    at_once = s0["ret"] is True and not s0["sent"] and obs["t_ret"] == obs["t0"]
+    if cache_suffices(tc, name, s0["now"]) and not at_once:
+        out.append(("C18:cachefirst", "by the datagrams received (%s) the cache holds an unexpired SRV and an unexpired address of its host, yet the lookup %s"
+                    % (sc["family"], "transmitted a query" if any(b["sent"] for b in blocks) else "did not answer at once")))
+    if at_once:
+        srv = (fin["server"], fin["port"], fin["priority"], fin["weight"])
+        if not any(r["kind"] == "DNSService" and r["name"].lower() == name.lower() and not expired(r, s0["now"]) and r["srv"] == srv for r in tc):
+            out.append(("C18:stale-srv", "answered from the cache with host/port %r, but by the datagrams received (%s) no SRV of the instance carrying them is unexpired: "
+                        "a record's life starts at its last sighting, with that sighting's TTL" % (srv, sc["family"])))
+        for a in fin["v4"] + fin["v6"]:
+            if not any(r["kind"] == "DNSAddress" and r["name"].lower() == (fin["server_key"] or "") and not expired(r, s0["now"]) and r["addr"] == a for r in tc):
+                out.append(("C18:stale-address", "answered from the cache with address %s, which by the datagrams received (%s) had expired" % (a, sc["family"])))
+        for r in tc:
+            if valid_addr(r) and r["name"].lower() == (fin["server_key"] or "") and not expired(r, s0["now"]) and r["addr"] not in fin["v4"] + fin["v6"]:
+                out.append(("C18:cache-load-incomplete", "answered from the cache without address %s of %s, which by the datagrams received (%s) is unexpired"
+                            % (r["addr"], fin["server_key"], sc["family"])))
+    return out
 
 
 def nontriv_key(sc, obs):
@@ -743,7 +893,7 @@ def check_cases(cases, res, ctx, label):
         res.count("queries", sum(1 for b in obs["blocks"] if b["sent"]))
         if i < 2:
             res.sample({"scenario": {k: sc[k] for k in ("timeout", "forced")}, "blocks": [impl_line(b) for b in obs["blocks"]][:6]})
-        for sig, what in oracle(sc, obs):
+        for sig, what in oracle(sc, obs) + (oracle_by_datagrams(sc, obs) if sc.get("truth") else []):
             res.count("oracle:" + sig)
             if res.dist["oracle:" + sig] <= 5:    # a few cases per signature: a frequent (known) one must not crowd out a rare one
                 res.violate(sig, what, sc)
@@ -765,7 +915,7 @@ def run(ctx):
         n *= 4
     corpus = [body.get("case", body) for _, body in C.load_corpus("C18")]
     check_cases(corpus, res, ctx, "corpus")
-    cases = [gen_responder_scenario(rng, i) if i % 5 == 4 else gen_scenario(rng, i) for i in range(n)]
+    cases = [gen_responder_scenario(rng, i) if i % 5 == 4 else (gen_history_scenario(rng, i) if i % 20 == 7 else gen_scenario(rng, i)) for i in range(n)]
     check_cases(cases, res, ctx, "gen")
     res.rule = ("one lookup per scenario on a simulated host: cache pre-filled with 0-2 SRV, 0-2 TXT, 0-3 A, 0-2 AAAA per host "
                 "(fresh / stale / expired-unpurged / on the boundary / expiring during the lookup; TTL 1 s-4500 s; names in several spellings), "
@@ -786,7 +936,7 @@ def replay(body):
     else:
         return {"violates": None, "note": "no scenario in this replay file (stage %s: %s)" % (body.get("stage"), body.get("broken"))}
     obs = run_scenario(sc)
-    v = oracle(sc, obs)
+    v = oracle(sc, obs) + (oracle_by_datagrams(sc, obs) if sc.get("truth") else [])
     out = {"violates": bool(v), "violations": [{"sig": s, "what": w} for s, w in v], "result": obs["result"],
            "returned_after_ms": obs["t_ret"] - obs["t0"], "blocks": [b["k"] + " t=%d " % (b["now"] - obs["t0"]) + impl_line(b) for b in obs["blocks"]]}
     try:
